@@ -88,6 +88,9 @@ func (s *Scn) A(i int) string { return s.accts[i%len(s.accts)].String() }
 // Init emits the genesis block and initialises a fresh instance (step id n).
 func (s *Scn) Init() {
 	g := s.g
+	for _, a := range s.accts {
+		g.line("ACCT str=%x addr=%x", a.String(), []byte(a))
+	}
 	g.line("G-BEGIN")
 	g.line("G role name=owner v=%x", s.owner)
 	g.line("G role name=attmgr v=%x", s.attmgr)
